@@ -389,6 +389,7 @@ class Session:
         self.wire = Wire()
         self.tasks = []
         self.handler_errors = []
+        self.dead = False  # the harness-side reader got stuck: nothing more can be delivered
 
     async def __aenter__(self):
         from custom_components.pyscript.eval import AstEval
@@ -488,29 +489,42 @@ class Session:
                 return True
         return False
 
-    async def deliver(self, wire_bytes, cuts, timeout=20.0):
-        """Deliver one request's bytes in fragments; returns a status string."""
+    async def deliver(self, wire_bytes, cuts, timeout=5.0):
+        """Deliver one request's bytes in fragments; returns a status string.
+
+        Hangs are detected by spinning the loop (nothing in the kernel needs wall-clock time), not by waiting."""
         if self.mode == "listen":
             await feed_fragments(self.shell_reader, wire_bytes, cuts)
             ok = await self.quiesce()
             return "ok" if ok else "no-quiescence"
-        feeder = asyncio.create_task(feed_fragments(self.shell_reader, wire_bytes, cuts))
+        recv = asyncio.create_task(self.shell_sock.recv_multipart())
+        await feed_fragments(self.shell_reader, wire_bytes, cuts)
+        for _ in range(300):
+            if recv.done():
+                break
+            await asyncio.sleep(0)
+        if not recv.done():
+            recv.cancel()
+            try:
+                await recv
+            except BaseException:  # noqa: BLE001
+                pass
+            self.dead = True
+            return "recv-timeout"
+        try:
+            msg = recv.result()
+        except Exception as e:  # noqa: BLE001
+            self.dead = True
+            return "recv-exception:" + type(e).__name__
         status = "ok"
         try:
-            msg = await asyncio.wait_for(self.shell_sock.recv_multipart(), timeout)
-            await feeder
-            try:
-                await asyncio.wait_for(self.kernel.shell_handler(self.shell_sock, msg), timeout)
-            except asyncio.TimeoutError:
-                status = "handler-timeout"
-            except Exception as e:  # noqa: BLE001 - a surviving listener would log and drop the request
-                self.handler_errors.append(type(e).__name__)
-                status = "dropped:" + type(e).__name__
+            await asyncio.wait_for(self.kernel.shell_handler(self.shell_sock, msg), timeout)
         except asyncio.TimeoutError:
-            status = "recv-timeout"
-        finally:
-            if not feeder.done():
-                feeder.cancel()
+            status = "handler-timeout"
+            self.dead = True
+        except Exception as e:  # noqa: BLE001 - a surviving listener would log and drop the request
+            self.handler_errors.append(type(e).__name__)
+            status = "dropped:" + type(e).__name__
         ok = await self.quiesce()
         return status if ok else status + "+no-quiescence"
 
